@@ -11,7 +11,7 @@ from fv import design
 RICH_NUM = ["x", "z", "binary(f, 'a')", "B(g)", "center(x)", "scale(z)", "bs(x, df=4)", "poly(z, 2)", "np.log(z)", "I(x ** 2)", "bs(z, df=3, degree=2)", "standardize(x)", "poly(x, 2, raw=True)", "scale(center(z))",
             "bs(x, knots=KN)", "bs(z, knots=KZ, degree=2, intercept=True)", "poly(xc, 2)", "center(xc)", "poly(xc, 3)",
             "ustd(x)", "ustd(center(z), shift=1)"]
-RICH_CAT = ["f", "g", "h", "o", "C(k)", "C(f, Sum)", "T(h, 'B-y')", "S(g)", "C(k, levels=KL)", "I(f)"]
+RICH_CAT = ["f", "g", "h", "o", "C(k)", "C(f, Sum)", "T(h, 'B-y')", "S(g)", "C(k, levels=KL)", "I(f)", "ou", "C(ou)", "S(ou)", "T(ou)"]
 
 
 def gen_text_formula(rng, groups=True, rich=True, max_terms=4):
@@ -35,7 +35,7 @@ def gen_text_formula(rng, groups=True, rich=True, max_terms=4):
         if t not in parts:
             parts.append(t)
     if groups and rng.random() < 0.5:
-        fac = rng.choice(["g", "h", "g:h", "C(k)"])
+        fac = rng.choice(["g", "h", "g:h", "C(k)", "k", "ou"])
         eff = rng.choice(["1", "x", "center(x)", "0 + f", "scale(z)", "f", "bs(x, df=3)", "0 + poly(z, 2)", "0 + bs(x, knots=KN)", "f:x"])
         parts.append(f"({eff} | {fac})")
         if rng.random() < 0.45:
